@@ -52,9 +52,20 @@ def run_rloop(v, prop, tier, ev):
     def one(i):
         jp = os.path.join(wd, f"jobs{i}.jsonl")
         op = os.path.join(wd, f"out{i}.jsonl")
+        pp = os.path.join(wd, f"prog{i}.txt")
         write_jsonl(jp, shards[i])
-        p = mbt("s20", "rloop", jp, op, timeout=3000, check=False)
+        import subprocess
+        try:
+            p = mbt("s20", "rloop", jp, op, pp, timeout=1200, check=False)
+        except (subprocess.TimeoutExpired, EngineHang):
+            p = None
         os.remove(jp)
+        if p is None or p.returncode != 0:
+            # the repair did not terminate, or the process died in the code under test: attributed to the job in progress
+            ji = int(open(pp).read().strip() or 0) if os.path.exists(pp) else 0
+            job = shards[i][ji] if ji < len(shards[i]) else None
+            return dict(dead=True, rc=(p.returncode if p else -999), stderr=(p.stderr[-400:] if p else "timeout: the repair does not terminate"),
+                        lines=[], shard=i, job=job)
         lines = []
         if os.path.exists(op):
             for l in open(op):
@@ -74,8 +85,14 @@ def run_rloop(v, prop, tier, ev):
     drift_samples = []
     for o in outs:
         if o["dead"]:
-            v.violation(dict(check="repair-loop", kind="process-death", wf=False, status="?", layers="?"),
-                        dict(engine="rloop", profile="s20", rc=o["rc"], stderr=o["stderr"], shard=o["shard"]))
+            job = o.get("job")
+            wf = bool(job and job["beh"]["wf"])
+            if prop == "C08" or wf:
+                v.violation(dict(check="repair-loop", kind="hang" if o["rc"] == -999 else "process-death", wf=wf,
+                                 status=job["beh"]["status"] if job else "?", layers=job["par"]["stack"] if job else "?"),
+                            dict(engine="rloop", profile="s20", rc=o["rc"], stderr=o["stderr"], shard=o["shard"], job=job))
+            else:
+                log(f"[{prop}] note: the repair engine died/hung on a malformed stream (C08's matter): {o['stderr'][:200]}")
             continue
         for l in o["lines"]:
             if l.get("summary"):
